@@ -98,15 +98,15 @@ var oddStrategies = []string{
 	strategyPrefix + "/best-route/54=",          // empty version component
 	strategyPrefix + "/best-route/54=%00%01",    // version 1 in a non-minimal (2-byte) number encoding
 	strategyPrefix + "/multicast/54=%00%00%00%01",
-	strategyPrefix + "/best-route/v=1/x",        // parameters after the version
-	strategyPrefix + "/multicast/v=1/v=1",       //
-	"/localhost/nfd/strategyx/best-route",       //
-	"/localhost/nfd",                            //
-	"/localhost",                                //
-	"/",                                         // empty strategy name
-	"/best-route/v=1",                           //
-	"/example/strategy/best-route/v=1",          //
-	"/localhop/nfd/strategy/best-route/v=1",     //
+	strategyPrefix + "/best-route/v=1/x",    // parameters after the version
+	strategyPrefix + "/multicast/v=1/v=1",   //
+	"/localhost/nfd/strategyx/best-route",   //
+	"/localhost/nfd",                        //
+	"/localhost",                            //
+	"/",                                     // empty strategy name
+	"/best-route/v=1",                       //
+	"/example/strategy/best-route/v=1",      //
+	"/localhop/nfd/strategy/best-route/v=1", //
 }
 
 var otherPrefixes = []string{"/localhost/nfdx", "/localhost", "/nfd", "/localhop/nfdx", "/example/nfd", "/localhost/NFD", "/localhop", "/"}
@@ -519,5 +519,32 @@ func genCaseW(t *rapid.T, weights []int) Case {
 		}
 		c.Ops = append(c.Ops, op)
 	}
+	// now and then a large table: a burst of registrations for prefixes of their own, then
+	// the RIB and FIB datasets (which then run to several kilobytes). While the known finding
+	// "a status dataset that does not fit one packet is never answered" is listed, the burst
+	// is kept to sizes whose datasets fit comfortably (exclusion by construction).
+	if pct(t, "bulk", 3) {
+		sizes := []int{40, 90, 150, 400, 1000}
+		if evid.Known("C17", knownBigDataset) {
+			sizes = sizes[:3]
+		}
+		k := pick(t, "bulkn", sizes)
+		pos := uni(t, "bulkpos", len(c.Ops)+1)
+		c.Ops = append(c.Ops[:pos:pos], append(bulkOps(k, uni(t, "bulkseed", 1000)), c.Ops[pos:]...)...)
+		c.Ops = append(c.Ops,
+			Op{Face: 0, Pfx: pfxLocal, Mod: "rib", Verb: "list", Form: "ds"},
+			Op{Face: 0, Pfx: pfxLocal, Mod: "fib", Verb: "list", Form: "ds"})
+	}
 	return c
+}
+
+// bulkOps: k accepted rib/register commands for k prefixes /r/b/k<i>, spread over the faces.
+func bulkOps(k, seed int) []Op {
+	ops := make([]Op, 0, k)
+	for i := 0; i < k; i++ {
+		name := fmt.Sprintf("/r/b/k%d", i)
+		ops = append(ops, Op{Face: 0, Pfx: pfxLocal, Mod: "rib", Verb: "register", Form: "signed",
+			P: P{Name: &name, Fid: fmt.Sprintf("f%d", 1+(i+seed)%4), Org: up(uint64((i*7 + seed) % 256)), Cost: up(uint64(i + seed))}})
+	}
+	return ops
 }
